@@ -269,6 +269,8 @@ template <class V>
 IMATH_HOSTDEVICE IMATH_CONSTEXPR14 inline bool
 Box<V>::intersects (const Box<V>& box) const IMATH_NOEXCEPT
 {
+    if (isEmpty () || box.isEmpty ()) return false;
+
     for (unsigned int i = 0; i < min.dimensions (); i++)
     {
         if (box.max[i] < min[i] || box.min[i] > max[i]) return false;
@@ -549,6 +551,8 @@ template <class T>
 IMATH_HOSTDEVICE IMATH_CONSTEXPR14 inline bool
 Box<Vec2<T>>::intersects (const Box<Vec2<T>>& box) const IMATH_NOEXCEPT
 {
+    if (isEmpty () || box.isEmpty ()) return false;
+
     return (box.min.x <= max.x) && (box.max.x >= min.x) &&
            (box.min.y <= max.y) && (box.max.y >= min.y);
 }
@@ -791,6 +795,8 @@ template <class T>
 IMATH_HOSTDEVICE IMATH_CONSTEXPR14 inline bool
 Box<Vec3<T>>::intersects (const Box<Vec3<T>>& box) const IMATH_NOEXCEPT
 {
+    if (isEmpty () || box.isEmpty ()) return false;
+
     return (box.min.x <= max.x) && (box.max.x >= min.x) &&
            (box.min.y <= max.y) && (box.max.y >= min.y) &&
            (box.min.z <= max.z) && (box.max.z >= min.z);
